@@ -85,7 +85,8 @@ void read_crs(
     if (row_beg < 0) row_beg = 0;
     if (row_end < 0) row_end = n;
 
-    precondition(row_beg >= 0 && row_end <= static_cast<ptrdiff_t>(n),
+    precondition(row_beg >= 0 && row_beg <= row_end &&
+            row_end <= static_cast<ptrdiff_t>(n),
             "Wrong subset of rows is requested");
 
     ptrdiff_t chunk = row_end - row_beg;
@@ -144,7 +145,8 @@ void read_dense(const std::string &fname,
     if (row_beg < 0) row_beg = 0;
     if (row_end < 0) row_end = n;
 
-    precondition(row_beg >= 0 && row_end <= static_cast<ptrdiff_t>(n),
+    precondition(row_beg >= 0 && row_beg <= row_end &&
+            row_end <= static_cast<ptrdiff_t>(n),
             "Wrong subset of rows is requested");
 
     ptrdiff_t chunk = row_end - row_beg;
